@@ -292,7 +292,7 @@ fn step_strategy(exact: bool) -> BoxedStrategy<f64> {
             1 => (1e12f64..1e30),
             1 => (0.0f64..1e-9),
             1 => (1e-19f64..3e-16),
-            1 => proptest::sample::select(vec![0.0, 1.0, 0.5, 0.25, 440.0 / 44100.0, 1e-12, 1e12, 0.9999999999999999, 1.0000000000000002, 1e-17, 8.673617379884035e-19, 9.3e18, 1e19, 1e20, 4503599627370497.5, 1e25]),
+            1 => proptest::sample::select(vec![0.0, 1.0, 0.5, 0.25, 440.0 / 44100.0, 1e-12, 1e12, 0.9999999999999999, 1.0000000000000002, 1e-17, 8.673617379884035e-19, 9.3e18, 1e19, 1e20, 4503599627370497.5, 1e25, 0.49999999999999994, 0.5000000000000001, 0.24999999999999997, 0.7499999999999999]),
         ]
         .boxed()
     }
@@ -331,7 +331,7 @@ pub fn osc_strategy(max_frames: u64) -> impl Strategy<Value = OscCase> {
 pub fn run(ctx: &mut Ctx) {
     ctx.set_rule(
         "oscillators: (rate, frequency sequence (one value = ConstHz path, several = per-frame Hz path), number of frames, exact flag); rates from powers of two, 44100, 48000, 1, 1e-3, 1e9 and random; \
-         frequencies as steps hz/rate in [0, 1e30] (beyond 2^63) incl. 0, >= rate, tiny (down to 1e-19, below 2^-52); exact regime = dyadic steps at a power-of-two rate (2^-4 .. 2^20) or at integer rates such as 49, 441, 44100, 48000 (hz = step x rate and hz / rate are then exact as well), one case in five with every step k x 2^-64 and one in five with subnormal steps k x 2^-1074 (the phase is then the exact f64 sum); runs up to 2000 frames plus long runs; noise: seeds 0, 1, 2^32, 2^63, u64::MAX - k and random; \
+         frequencies as steps hz/rate in [0, 1e30] (beyond 2^63) incl. 0, >= rate, tiny (down to 1e-19, below 2^-52); exact regime = dyadic steps at a power-of-two rate (2^-4 .. 2^20) or at integer rates such as 49, 441, 44100, 48000 (hz = step x rate and hz / rate are then exact as well), one case in five with every step k x 2^-64 and one in five with subnormal steps k x 2^-1074 (the phase is then the exact f64 sum); runs up to 2000 frames plus long runs; noise: seeds 0, 1, 2^32, 2^63, u64::MAX - k and random, plus 2^31 (thorough 2^32) consecutive frames covering the generator's whole counter period; \
          non-trivial: step >= 1, varying frequency, run > 1e5 frames (oscillators); boundary seed (noise)",
     );
     ctx.assume("the phase used by an oscillator is observed through an identically driven Phase signal (same code, same frequency sequence); exact regime: phase_n == frac(sum of steps) exactly; general: circular distance <= sum over the frames so far of 2^-52 x (phase + step), i.e. one ulp of each addition");
@@ -350,6 +350,26 @@ pub fn run(ctx: &mut Ctx) {
     let n = long_cases.len() as u64;
     ctx.par_enumerate("oscillators/long-runs", true, n, move |i| long_cases[i as usize].clone(), check_osc);
 
+    // the whole counter period of the noise generator: every one of 2^31 consecutive frames (thorough: 2^32) lies in [-1, 1]
+    let span: u64 = ctx.pick(1u64 << 31, 1u64 << 32);
+    let chunks = 256u64;
+    ctx.par_enumerate(
+        "noise/full-period-range",
+        true,
+        chunks,
+        move |i| NoiseCase { seed: i * (span / chunks), frames: span / chunks },
+        |c: &NoiseCase, st: &mut Stats| {
+            st.nt(true);
+            let mut s = signal::noise(c.seed);
+            for k in 0..c.frames {
+                let v = s.next();
+                if !(v >= -1.0 && v <= 1.0) {
+                    return Err(format!("noise({}) frame {} = {} outside [-1, 1]", c.seed, k, v));
+                }
+            }
+            Ok(())
+        },
+    );
     let mut seeds: Vec<u64> = vec![0, 1, 2, 1 << 32, (1 << 32) - 1, 1 << 63, (1 << 63) - 1, u64::MAX];
     for k in 0..=300 {
         seeds.push(u64::MAX - k);
